@@ -116,7 +116,7 @@ SeenFlags(seen, h2, g2, x2) ==
      \cup (IF \E j \in 1..Len(seen) : badW(seen[j]) \/ badP(seen[j]) THEN {"C05"} ELSE {})
 
 DropOps  == {"DropRoot", "DropStored", "DecStrong", "MakeMut", "MakeMutS", "MakeMutP"}      \* calls that drop a strong handle
-CloneOps == {"CloneRoot", "CloneStored"}
+CloneOps == {"CloneRoot", "CloneStored", "IncStrongStored"}
 
 MonStep ==
   /\ l <= Len(Rec)
@@ -158,7 +158,7 @@ MonStep ==
                         THEN {"C14"} ELSE {}
                  sf == IF ln.depth = 0 THEN SeenFlags(ln.seen, h2, g2, x1) ELSE {}
                  c16 == IF ln.op \in {"CloneRoot", "IncStrong"} THEN CloneFlag(ln.a, ln.ret)
-                        ELSE IF ln.op = "CloneStored" THEN CloneFlag(ln.b, ln.ret) ELSE {}
+                        ELSE IF ln.op \in {"CloneStored", "IncStrongStored"} THEN CloneFlag(ln.b, ln.ret) ELSE {}
                  \* C09: outcome of this call = result, destroyed SET, everything observable after it
                  sg  == [ret |-> ln.ret, dset |-> {ob.dlog[i] : i \in 1..Len(ob.dlog)}, heap |-> h2,
                          nd |-> x1.nd, nf |-> x1.nf, seen |-> ln.seen]
@@ -202,9 +202,9 @@ MonStep ==
           [] ln.k = "died" ->
              \* the child process was killed by a signal right after the last logged line
              LET c == ob.call
-                 t == IF c.op = "CloneStored" THEN c.b ELSE c.a
+                 t == IF c.op \in {"CloneStored", "IncStrongStored"} THEN c.b ELSE c.a
                  expected == /\ Stack # <<>> /\ Top.pc = "lib"
-                             /\ c.op \in {"CloneRoot", "CloneStored", "IncStrong"}
+                             /\ c.op \in {"CloneRoot", "CloneStored", "IncStrong", "IncStrongStored"}
                              /\ t \in Obj /\ heap.mem[t] = "alloc" /\ heap.strong[t] \in {0, UNINIT}
              IN /\ heap' = heap /\ led' = led
                 /\ ob' = [ob EXCEPT !.flags = @ \cup (IF expected THEN {} ELSE {"CRASH"}), !.ret = "abort"]
